@@ -69,7 +69,7 @@ Concat(ss) == IF ss = <<>> THEN <<>> ELSE Head(ss) \o Concat(Tail(ss))
 (* Value sources: where an author string can enter an output document      *)
 (***************************************************************************)
 AttrSources == {"attr", "var-in-attr", "expr-string", "style-attr", "cfg-svg-style", "cfg-font", "cfg-background",
-                "g-attr", "reuse-attr", "debug-original", "class-attr", "class-var"}
+                "g-attr", "reuse-attr", "debug-original", "class-attr", "class-var", "root-attr"}
 \* longer strings over the characters that matter inside comments (dashes next to
 \* characters the debug rendition strips)
 \* strings around the CDATA terminator, for settings that flow into the style sheet
